@@ -488,8 +488,35 @@ impl Node {
          id in ({}) ",
             q,);
 
+        // a deleted row stays deleted: find the offered versions that are not newer than a stored
+        // deletion record of that row, they will not be requested
+        let deletion_query = format!(
+            "SELECT id, max(mdate) FROM _node_deletion_log WHERE id in ({}) GROUP BY id",
+            q,
+        );
+        let mut deleted: Vec<NodeIdentifier> = Vec::new();
+        {
+            let mut deletion_stmt = conn.prepare(&deletion_query)?;
+            let mut deletion_rows = deletion_stmt.query(params_from_iter(ids.iter()))?;
+            while let Some(row) = deletion_rows.next()? {
+                let deletion = NodeIdentifier {
+                    id: row.get(0)?,
+                    mdate: row.get(1)?,
+                    signature: Vec::new(),
+                };
+                if let Some(offered) = node_ids.get(&deletion) {
+                    if offered.mdate <= deletion.mdate {
+                        deleted.push(deletion);
+                    }
+                }
+            }
+        }
+
         let mut stmt = conn.prepare(&query)?;
         let mut rows = stmt.query(params_from_iter(ids.iter()))?;
+        for deletion in &deleted {
+            node_ids.remove(deletion);
+        }
 
         let mut result = Vec::new();
         while let Some(row) = rows.next()? {
